@@ -11,6 +11,7 @@
 #include <cstdlib>
 #include <cstring>
 #include <dirent.h>
+#include <fcntl.h>
 #include <fstream>
 #include <iostream>
 #include <set>
@@ -198,11 +199,18 @@ static int cmd_batch(int argc, char **argv)
     (void)t0;
     double start = real_now();
     uint64_t ph = sim::fnv1a(prop.data(), prop.size());
+    std::string curpath = outdir + "/w" + std::to_string(first) + ".cur";
+    int curfd = ::open(curpath.c_str(), O_WRONLY | O_CREAT | O_TRUNC, 0644);
     for (long k = 0; k < count; k++) {
         long index = first + k * stride;
         uint64_t seed = sim::mix(sim::mix(base, ph), (uint64_t)index);
         Plan plan = generate(prop, tier, seed);
         plan.flavour = g_flavour;
+        if (curfd >= 0) {
+            char buf[64];
+            int n = snprintf(buf, sizeof buf, "%ld %ld          \n", k, index);
+            if (pwrite(curfd, buf, (size_t)n, 0) < 0) { }
+        }
         RunResult r = run_one(plan, false);
         runs++;
         // determinism gate: the first runs of each worker are executed twice
@@ -329,6 +337,17 @@ int main(int argc, char **argv)
         return 2;
     }
     std::string cmd = argv[1];
+    if (cmd == "plan") {
+        if (argc < 6)
+            return 2;
+        std::string prop = argv[2];
+        uint64_t ph = sim::fnv1a(prop.data(), prop.size());
+        uint64_t seed = sim::mix(sim::mix(strtoull(argv[4], nullptr, 10), ph), strtoull(argv[5], nullptr, 10));
+        Plan p = generate(prop, argv[3], seed);
+        p.flavour = g_flavour;
+        printf("%s\n", to_json_string(p, true).c_str());
+        return 0;
+    }
     if (cmd == "gen") {
         if (argc < 5)
             return 2;
